@@ -29,3 +29,4 @@ Leave the worktree with your change applied and the demo file in place. Reply wi
 # Round 2 prompts were generated from the same template with the worktree id <PID>r2 and one extra
 # sentence: "Do NOT place your change in <files touched by the round-1 seed> ...; pick a different file
 # and a different clause of the property than the most obvious one."
+# Round 3 prompts: same template, worktree id <PID>r3, files of the round-1 and round-2 seeds excluded.
